@@ -1396,6 +1396,16 @@ def _gen_cases(prop, tier, seed):
         return cases
     if prop == "C17":
         n = 120 if quick else 3000
+        # the recorded finding F33, every run: a rule without a class value whose name changes only in
+        # letter case; the class a client is given is the rule's name as the *old* file spelled it
+        w_old = Cfg(timeout=0, services=[], rules=[("Users", [("address", "*")])])
+        w_new = Cfg(timeout=0, services=[], rules=[("users", [("address", "*")])])
+        w_ops = [inl("5 C 1.2.3.4 1234 0::1 6667"), inl("5 N host.example"), inl("5 u ident"), inl("5 n nick"),
+                 inl("5 U user :real name"), inl("5 H")]
+        cases.append(Case("c17/f33/reload", header("class", w_old) + [w_new.op("reload")] + w_ops + ["eof"],
+                          tags={"group": "c17/f33", "role": "reload", "mods": "class", "nreload": 1}))
+        cases.append(Case("c17/f33/fresh", header("class", w_new) + w_ops + ["eof"],
+                          tags={"group": "c17/f33", "role": "fresh", "mods": "class"}))
         for i in range(n):
             mods = rng.choice(["xquery", "class", "class"])
             old = rand_cfg(rng, mods, timeout=0)
@@ -1536,6 +1546,16 @@ def mutate_cfg(rng, cfg, mods):
                   rules=[] if (mods == "class" and rng.random() < 0.7) else rules)
         out.drop_empty = rng.random() < 0.75
         return out
+    if rng.random() < 0.04 and (rules or services):
+        # only the letter case of a name changes (finding F33: the merge keeps the old spelling, so a
+        # rule's name used as class, or a service's name, differs from a fresh start's)
+        if rules and (mods == "class") and rng.random() < 0.6:
+            k = rng.randrange(len(rules))
+            rules[k] = (rules[k][0].swapcase(), [x for x in rules[k][1] if x[0] != "class"])
+        elif services:
+            k = rng.randrange(len(services))
+            services[k] = (services[k][0].swapcase(), services[k][1])
+        return Cfg(timeout=cfg.timeout, services=services, rules=rules)
     for _ in range(rng.choice([1, 1, 2, 3])):
         r = rng.random()
         if r < 0.2 and services:
@@ -1861,7 +1881,24 @@ def service_names(case):
     return names
 
 
+def respelled_names(case):
+    """names (services, rules) that occur in the case's configurations in more than one letter case"""
+    seen = {}
+    for l in case.lines[1:]:
+        f = l.split(" ")
+        if f[0] in ("conf", "reload"):
+            for x in f[2:]:
+                if x[:2] in ("s=", "r=", "o=", "c="):
+                    n = unhx(x[2:].split(":")[0])
+                    seen.setdefault(n.lower(), set()).add(n)
+    return [k for k, v in seen.items() if len(v) > 1]
+
+
 def classify(prop, f):
+    group = getattr(f, "group", None) or [f.case]
+    if prop == "C17" and any(respelled_names(c) for c in group):
+        # an entry whose name changed only in letter case across a reload: one finding (F33)
+        return "proto:C17:name-respelled-in-place"
     if len(service_names(f.case)) > 32:
         # more service names than the per-client masks have bits: one finding whatever the symptom
         return "proto:%s:more-than-32-service-slots" % prop
